@@ -13,6 +13,8 @@ import (
 	"strings"
 	"sync"
 	"time"
+
+	"golang.org/x/tools/go/ssa"
 )
 
 const prelude = `(declare-sort Str 0)
@@ -190,6 +192,114 @@ type OblResult struct {
 	By       string
 	Secs     float64
 	Attempts []SolverResult
+	Split    int      // number of path cases the obligation was split into (0: not split)
+	FailPath []string // for a split obligation: the path case(s) that did not discharge
+}
+
+// nearestMerge walks up from b along single non-back-edge predecessors and
+// returns the first block with several incoming (non-back) edges, and those predecessors.
+func nearestMerge(fv *FuncVerifier, b *ssa.BasicBlock) (*ssa.BasicBlock, []*ssa.BasicBlock) {
+	for b != nil {
+		var preds []*ssa.BasicBlock
+		seen := map[*ssa.BasicBlock]bool{}
+		for _, p := range b.Preds {
+			if fv.isBackEdge(p, b) || seen[p] {
+				continue
+			}
+			seen[p] = true
+			preds = append(preds, p)
+		}
+		if len(preds) >= 2 {
+			return b, preds
+		}
+		if len(preds) == 0 {
+			return nil, nil
+		}
+		b = preds[0]
+	}
+	return nil, nil
+}
+
+// splitDischarge: divide-and-conquer over the control-flow paths into the
+// obligation's block. reach(b) is the disjunction of b's incoming edges, so the
+// obligation holds iff it holds under each edge; cases that still do not
+// discharge are split again (bounded).
+func splitDischarge(o *Obligation, script string, base string, timeout int) (ok bool, cases int, by string, failPaths []string, attempts []SolverResult) {
+	if o.enc == nil || o.Block == nil {
+		return false, 0, "", nil, nil
+	}
+	fv := o.enc.fv
+	type item struct {
+		assume []string
+		from   *ssa.BasicBlock
+		depth  int
+	}
+	cut := strings.LastIndex(script, "(check-sat)")
+	if cut < 0 {
+		return false, 0, "", nil, nil
+	}
+	work := []item{{nil, o.Block, 0}}
+	first := true
+	n := 0
+	used := map[string]bool{}
+	for len(work) > 0 {
+		it := work[0]
+		work = work[1:]
+		if !first {
+			// try this case as is
+			n++
+			if n > 40 {
+				return false, n, "", append(failPaths, "case budget exhausted"), attempts
+			}
+			var sb strings.Builder
+			sb.WriteString(script[:cut])
+			for _, a := range it.assume {
+				fmt.Fprintf(&sb, "(assert %s)\n", a)
+			}
+			sb.WriteString("(check-sat)\n")
+			f := fmt.Sprintf("%s.case%02d.smt2", base, n)
+			os.WriteFile(f, []byte(sb.String()), 0o644)
+			res := raceSolvers([]string{"z3-new", "z3-new/as2"}, f, timeout)
+			done := false
+			for _, r := range res {
+				attempts = append(attempts, r)
+				if r.Result == "unsat" {
+					done = true
+					used[r.Solver] = true
+				}
+				if r.Result == "sat" {
+					return false, n, "", append(failPaths, strings.Join(it.assume, " ")+" (sat)"), attempts
+				}
+			}
+			if done {
+				continue
+			}
+			if it.depth >= 5 {
+				failPaths = append(failPaths, strings.Join(it.assume, " "))
+				continue
+			}
+		}
+		first = false
+		m, preds := nearestMerge(fv, it.from)
+		if m == nil {
+			if len(it.assume) > 0 {
+				failPaths = append(failPaths, strings.Join(it.assume, " "))
+			} else {
+				return false, n, "", nil, attempts
+			}
+			continue
+		}
+		for _, p := range preds {
+			en := q(fmt.Sprintf("edge.%s.%s", blockLabel(p), blockLabel(m)))
+			work = append(work, item{append(append([]string{}, it.assume...), en), p, it.depth + 1})
+		}
+	}
+	var us []string
+	for k := range used {
+		us = append(us, k)
+	}
+	sort.Strings(us)
+	return len(failPaths) == 0 && n > 0, n, "split(" + strings.Join(us, ",") + ")", failPaths, attempts
 }
 
 var solverCmds = map[string]func(file string, timeout int) []string{
@@ -219,6 +329,48 @@ func runSolver(name, file string, timeout int) SolverResult {
 		res = "timeout"
 	}
 	return SolverResult{Solver: name, Result: res, Secs: secs, Output: string(out)}
+}
+
+// raceSolvers runs several strategies on the same query concurrently and
+// returns as soon as one gives a definite answer (the others are killed).
+func raceSolvers(names []string, file string, timeout int) []SolverResult {
+	type res struct {
+		i int
+		r SolverResult
+	}
+	ctx, cancel := context.WithCancel(context.Background())
+	defer cancel()
+	ch := make(chan res, len(names))
+	for i, n := range names {
+		go func(i int, n string) {
+			args := solverCmds[n](file, timeout)
+			cctx, ccancel := context.WithTimeout(ctx, time.Duration(timeout+5)*time.Second)
+			defer ccancel()
+			start := time.Now()
+			out, _ := exec.CommandContext(cctx, args[0], args[1:]...).CombinedOutput()
+			first := strings.TrimSpace(strings.SplitN(string(out), "\n", 2)[0])
+			r := "error"
+			switch {
+			case first == "unsat" || first == "sat" || first == "unknown":
+				r = first
+			case ctx.Err() != nil:
+				r = "cancelled"
+			case strings.Contains(first, "timeout") || cctx.Err() != nil:
+				r = "timeout"
+			}
+			ch <- res{i, SolverResult{Solver: n, Result: r, Secs: time.Since(start).Seconds(), Output: string(out)}}
+		}(i, n)
+	}
+	out := make([]SolverResult, 0, len(names))
+	for range names {
+		x := <-ch
+		out = append(out, x.r)
+		if x.r.Result == "unsat" || x.r.Result == "sat" {
+			cancel()
+			break
+		}
+	}
+	return out
 }
 
 // Discharge runs the portfolio on all obligations, in parallel.
@@ -289,15 +441,39 @@ func Discharge(obls []*Obligation, dir string, timeout int, thorough bool, jobs 
 					}
 				}
 			} else {
-				// first definite answer wins
-				definite := func() bool {
-					a := r.Attempts[len(r.Attempts)-1]
-					return a.Result == "sat" || a.Result == "unsat"
+				// z3 5.1.0 (two strategies) and z3 4.8.12 race; then cvc5
+				raced := raceSolvers([]string{"z3-new", "z3-new/as2", "z3"}, f, timeout)
+				for _, sr := range raced {
+					r.Attempts = append(r.Attempts, sr)
+					if sr.Result == "unsat" {
+						r.By, r.Status = sr.Solver, "discharged"
+					}
 				}
-				for _, s := range []string{"z3-new", "z3-new/as2", "z3", "cvc5"} {
-					try(s)
-					if definite() {
-						break
+				isDef := false
+				for _, sr := range raced {
+					if sr.Result == "unsat" || sr.Result == "sat" {
+						isDef = true
+					}
+				}
+				if !isDef {
+					try("cvc5")
+				}
+			}
+			if r.Status != "discharged" && !thorough && (knownFail == nil || !knownFail(o)) {
+				sat := false
+				for _, a := range r.Attempts {
+					if a.Result == "sat" {
+						sat = true
+					}
+				}
+				if !sat {
+					if ok, n, by, fp, att := splitDischarge(o, scripts[i][0], base, timeout); n > 0 {
+						r.Split = n
+						r.FailPath = fp
+						r.Attempts = append(r.Attempts, att...)
+						if ok {
+							r.Status, r.By = "discharged", by
+						}
 					}
 				}
 			}
